@@ -9,7 +9,7 @@ use owning_iovec::{ConsumingIovec, OwningIovec};
 use proptest::prelude::*;
 use serde::{Deserialize, Serialize};
 
-use crate::engine::bytespec::{self, show, ByteSpec, Cut, Hex};
+use crate::engine::bytespec::{self, show, ByteSpec, Cut, Hex, Seg};
 use crate::engine::Fail;
 
 /// One step of a scripted reader.
@@ -213,6 +213,48 @@ pub fn codec_case(allow_large: bool) -> impl Strategy<Value = CodecCase> {
             enc,
             dec,
         })
+}
+
+/// Payloads whose stuff sequences (or lone FE / FD bytes) sit at power-of-two
+/// distances from where a scan can start: the beginning of the input, the end of
+/// the 252-byte first chunk, or just after the previous stuff sequence.  Half of
+/// the cases feed everything in one call, so that the distance is also the
+/// offset inside one call's slice.
+pub fn aligned_case() -> impl Strategy<Value = CodecCase> {
+    let gap = (6u32..=16, 1u32..=4, -2i32..=1).prop_map(|(p, k, d)| ((k << p) as i64 - 1 + d as i64).clamp(0, 140_000) as u32);
+    let marker = prop_oneof![
+        5 => Just(vec![0xFEu8, 0xFD]),
+        1 => Just(vec![0xFEu8]),
+        1 => Just(vec![0xFEu8, 0xFE, 0xFD]),
+        1 => Just(vec![0xFEu8, 0xFD, 0xFE, 0xFD]),
+    ];
+    let prefix = prop_oneof![
+        3 => Just(vec![]),
+        3 => Just(vec![Seg::Fill { byte: 0x44, len: 252 }]),
+        3 => Just(vec![Seg::Lit(Hex(vec![0xFE, 0xFD]))]),
+        1 => Just(vec![Seg::Fill { byte: 0x44, len: 252 + 64008 }]),
+        2 => (0u32..300).prop_map(|len| vec![Seg::Fill { byte: 0x44, len }, Seg::Lit(Hex(vec![0xFE, 0xFD]))]),
+    ];
+    let filler = prop_oneof![3 => Just(0u8), 1 => Just(1u8), 1 => Just(2u8)];
+    (codec_case(false), prefix, proptest::collection::vec((gap, marker, filler, any::<u32>()), 1..4), 0u8..4).prop_map(|(mut case, prefix, runs, feeding)| {
+        let mut segs = prefix;
+        for (gap, marker, filler, seed) in runs {
+            segs.push(match filler {
+                0 => Seg::Fill { byte: 0x45, len: gap },
+                1 => Seg::Fill { byte: 0xFD, len: gap },
+                // Uniform noise may contain FE FD itself: then the alignment is relative to that one.
+                _ => Seg::Noise { seed, len: gap, alphabet: 0 },
+            });
+            segs.push(Seg::Lit(Hex(marker)));
+        }
+        segs.extend(case.payload.0.drain(..).take(2));
+        case.payload = ByteSpec(segs);
+        if feeding < 2 {
+            case.enc.cuts.clear();
+            case.dec.cuts.clear();
+        }
+        case
+    })
 }
 
 /// Positions worth cutting near for a plain input: stuff sequences and the chunk limits.
